@@ -16,7 +16,8 @@
                       integer pairs (exact: all numerators are even on the lattice, see GeoRotExact).
                       The tables SymC6/SymS6 are pinned down by the ASSUMEs below (unit length, angle
                       addition, cos 60 = 1/2, sin 60 = r3/2 > 0).
-     GeoRot(o,k,c)    THE cell whose centre is the centre of c turned by k*60 degrees (inverse lookup).
+     GeoRot(o,k,c)    THE cell whose centre is the centre of c turned by k*60 degrees (SymCellAt = inverse of SymXY;
+                      GeoRotExact checks that the lookup is exact and unique among all cells).
      GeoImages3(o,c)  images of c under the third-core group {R0, R120, R240} other than c itself.
      GeoInSector      the modelled third: the centre cell plus the closed-open sector that starts at the
                       direction of cell (2,-1) (lower symmetry line, "0 degrees" in the flats-up picture) and
@@ -99,8 +100,11 @@ SymRotVec(oo, k, p) == LET q == SymRot2(oo, k, p) IN <<q[1] \div 2, q[2] \div 2>
 SymCross(p, q)     == p[1] * q[2] - p[2] * q[1]
 SymDot(oo, p, q)   == IF oo = "flat" THEN p[1] * q[1] + 3 * p[2] * q[2] ELSE 3 * p[1] * q[1] + p[2] * q[2]
 
-GeoRot(oo, k, cc)  == CHOOSE d \in Cells : SymXY(oo, d) = SymRotVec(oo, k, SymXY(oo, cc))
-GeoImages3(oo, cc) == {d \in Cells : \E k \in {2, 4} : SymXY(oo, d) = SymRotVec(oo, k, SymXY(oo, cc))} \ {cc}
+\* the cell whose centre is the lattice point p (inverse of SymXY; GeoRotExact checks SymXY(SymCellAt(p)) = p wherever used)
+SymCellAt(oo, p)   == IF oo = "flat" THEN <<p[1] \div 3, (p[2] - (p[1] \div 3)) \div 2>>
+                                     ELSE <<(p[1] + (p[2] \div 3)) \div 2, ((p[2] \div 3) - p[1]) \div 2>>
+GeoRot(oo, k, cc)  == SymCellAt(oo, SymRotVec(oo, k, SymXY(oo, cc)))
+GeoImages3(oo, cc) == {GeoRot(oo, 2, cc), GeoRot(oo, 4, cc)} \ {cc}
 GeoOrbit3(oo, cc)  == GeoImages3(oo, cc) \cup {cc}
 
 LowerDir(oo) == SymXY(oo, <<2, -1>>)
@@ -179,6 +183,7 @@ SeqRange(s) == {s[x] : x \in 1..Len(s)}
 GeoRotExactC == \A k \in 0..5 : LET q == SymRot2(o, k, SymXY(o, c)) IN
                    /\ q[1] % 2 = 0 /\ q[2] % 2 = 0
                    /\ Cardinality({d \in Cells : SymXY(o, d) = SymRotVec(o, k, SymXY(o, c))}) = 1
+                   /\ GeoRot(o, k, c) \in Cells /\ SymXY(o, GeoRot(o, k, c)) = SymRotVec(o, k, SymXY(o, c))
 
 EquivalentsAreImagesC ==
     /\ SeqRange(AlgEquivThird(c)) = GeoImages3(o, c)
